@@ -181,7 +181,15 @@ def core_check(prop, tier, seed, sd, t0):
         cov['apalache_note'] = ('Policy.tla: IndInv is an inductive invariant of the keep-N policy + the persister\'s persist-before-commit obligation and implies '
                                 'C11_Retained and C11_AtLeastN for any number of commits, clean-ups and failed removals (unbounded in the number of steps; epochs and '
                                 'segment ids range over small finite domains)')
-    vlib.write_evidence(prop, tier, seed, 'model_checking', cov, ASSUME_CORE, time.time() - t0, len(viols))
+    nviol = len(viols)
+    if prop == 'C11':
+        # handles of the offline writer (Offline.tla / OfflineTrace.tla)
+        rc2, ocov = vextra.offline_subcheck(prop, tier, seed, sd, ('C11_',))
+        cov['offline_writer'] = ocov
+        if rc2:
+            rc = 1
+            nviol += ocov.get('violations', 1)
+    vlib.write_evidence(prop, tier, seed, 'model_checking', cov, ASSUME_CORE, time.time() - t0, nviol)
     log('%s %s: %d model states, %d executions (%d events, %d crash images) validated, %d violations, %.0fs'
         % (prop, tier, states, total_runs, total_events, total_images, len(viols), time.time() - t0))
     return rc
@@ -206,7 +214,7 @@ def setup():
                 rc = 1
         try:
             vlib.build_harness(sd)
-            for pkg in ('persistprobe', 'planprobe', 'searchprobe', 'collprobe', 'aggprobe', 'layoutprobe'):
+            for pkg in ('persistprobe', 'planprobe', 'searchprobe', 'collprobe', 'aggprobe', 'layoutprobe', 'offlineprobe'):
                 vextra.go_build(sd, './cmd/' + pkg, pkg)
             log('harness and probes built')
         except Inconclusive as e:
@@ -248,6 +256,16 @@ def selftest():
         rc, out = vlib.tlc_run(wd, 'MC.tla', 'x.cfg', workers=8, timeout=600)
         hit = 'Invariant C04_NoUseAfterClose is violated' in out
         log('selftest: BlugeCore with WaitForSwap=FALSE -> %s' % ('counterexample to C04_NoUseAfterClose' if hit else 'NO counterexample'))
+        ok &= hit
+        # (1a'') Offline.tla with the unrepaired snapshot-error path (D16)
+        wd = os.path.join(sd, 'mc3')
+        os.makedirs(wd)
+        shutil.copy(os.path.join(SPEC, 'Offline.tla'), wd)
+        cfg = open(os.path.join(SPEC, 'MC_offline.cfg')).read().replace('CloseOnSnapshotError = TRUE', 'CloseOnSnapshotError = FALSE')
+        open(os.path.join(wd, 'x.cfg'), 'w').write(cfg)
+        rc, out = vlib.tlc_run(wd, 'Offline.tla', 'x.cfg', workers=4, timeout=300)
+        hit = 'Invariant O_HandlesReleased is violated' in out
+        log('selftest: Offline with CloseOnSnapshotError=FALSE -> %s' % ('counterexample to O_HandlesReleased' if hit else 'NO counterexample'))
         ok &= hit
         # (1b) DirFS without truncate / without sync
         for const, want in (('Truncate = TRUE', 'ExactOnSuccess'), ('SyncOnPersist = TRUE', 'SyncedOnSuccess')):
